@@ -35,7 +35,13 @@ def run_case(job):
     try:
         gaf = os.path.join(d, zname("a.gaf", cid) if storage == "bgzf" else "a.gaf")
         lines = [gaf_line(r, k) for k, r in enumerate(recs)]
-        write_text(gaf, join_lines(lines, cid), storage, block=150)
+        if storage == "bgzf" and len(lines) > 3000:
+            from readers import align_starts
+
+            lines = align_starts(lines, [1 << 16, 1 << 17, 3 << 16], pad=60)      # records START on 64 KiB seams of the text
+            write_text(gaf, "\n".join(lines) + "\n", "bgzf", block=65280)
+        else:
+            write_text(gaf, join_lines(lines, cid), storage, block=150)
         tp = os.path.join(d, "h.tsv")
         with open(tp, "w") as f:
             for k in range(filler):
@@ -110,7 +116,7 @@ def run(ctx):
             tsv.append([rnd.choice(names + ["other"]), h, "none" if h == "none" else str(rnd.randint(1, 999)), rnd.choice(["chr1", "chr2", "chrX"])])
         jobs.append((f"r{ri}", recs, tsv, rnd.choice(["plain", "bgzf"])))
     # large files: output written in batches has its boundaries there (1000, 4096, 8192, ...)
-    for bi, n in enumerate([10000, 4097] if ctx.thorough else [8200]):
+    for bi, n in enumerate([10000, 4097] if ctx.thorough else [8200, 4097]):      # (the second one is BGZF with records on 64 KiB seams)
         recs = [DATA["recs"][(7 * k + k // 11) % len(DATA["recs"])] for k in range(n)]
         jobs.append((f"big{bi}", recs, DATA["tsvs"][3 + bi], "bgzf" if bi else "plain", 650000 if bi == 0 else 0))      # > 16 MiB of TSV in front
     cases = pool_map(run_case, jobs, chunk=16)
